@@ -379,19 +379,6 @@ def run_exec_freeze(res, ast):
             if mc["name"] in ("thread_local", "lazy_static"):
                 bad.append(f"{path}: {mc['name']}!")
     res.check(not bad, "EXEC-FREEZE", "library-statics", "src/", f"mutable global state in the library: {bad}")
-    # execute_in derives code from &self.bytecode each call
-    for path, ty, fn_, src in (("src/exec/basejit/mod.rs", "BaseJitCompiler", "compile_program", "self.bytecode"),
-                               ("src/exec/bcint/mod.rs", "BcInterpreter", "build_threaded_code", "self.bytecode")):
-        try:
-            f = ast.fn(path, "execute_in", contains=ty)["node"]
-            calls = [m for m in walk_t(f["body"], "MethodCall") if m["method"] == fn_]
-            ok = len(calls) == 1 and path_name(calls[0]["receiver"]) == "self"
-            res.check(ok, "EXEC-FREEZE", f"{path}|{ty}::execute_in|fresh-code", where(path, f, "execute_in"),
-                      f"{ty}::execute_in must generate its code from self on every call ({fn_}(limited, safe))")
-            if ok:
-                a = [T(ast, path, x) for x in calls[0]["args"]]
-                ps_ = [p_["pat"]["name"] for p_ in f["sig"]["inputs"] if p_["t"] == "Arg"]
-                res.check(len(ps_) == 3 and a == ps_[1:], "EXEC-FREEZE", f"{path}|{ty}::execute_in|mode-args", where(path, f, "execute_in"),
-                          f"{fn_} must receive this call's (limited, safe); found {a}")
-        except Missing as m:
-            res.missing("EXEC-FREEZE", m)
+    # every entry point generates its code from self, with this call's mode flags, on every call (no cached code is reached first)
+    import iolim as _io
+    _io.run_mode_map(res, ast, "EXEC-FREEZE")
